@@ -189,8 +189,15 @@ impl Prop for C14 {
             }
             picked.bytes = b;
         }
-        let has_debug = debug_spliced || wasmsplit::customs(&picked.bytes).map(|c| c.iter().any(|(n, _)| n.starts_with(b".debug"))).unwrap_or(true);
+        if !debug_spliced {
+            picked = inputs::maybe_attach_dwarf(picked, rng, 1, 5);
+        }
+        let (has, synth) = inputs::debug_status(&picked.iref.source, &picked.bytes);
+        let has_debug = has && !synth;
         let mut cfg = draw_vector(rng);
+        if synth && rng.chance(2, 3) {
+            cfg.dwarf = true;
+        }
         if has_debug {
             // emission of arbitrary (malformed) DWARF is documented as experimental
             cfg.dwarf = false;
@@ -199,7 +206,8 @@ impl Prop for C14 {
         let chain: Vec<CfgBits> = (0..hops)
             .map(|_| {
                 let mut c = draw_vector(rng);
-                if has_debug {
+                // after the first hop the DWARF is walrus's own output: keep generation off for the later hops
+                if has_debug || synth {
                     c.dwarf = false;
                 }
                 c
@@ -217,7 +225,10 @@ impl Prop for C14 {
                 }
             }
         }
-        let case = Case { input: inputs::input_ref(&picked.iref.source.chars().take(200).collect::<String>(), &picked.bytes), cfg, chain, faults: fs, exhaustive: false };
+        if synth && cfg.dwarf {
+            fs.clear();
+        }
+        let case = Case { input: inputs::input_ref(&picked.iref.source, &picked.bytes), cfg, chain, faults: fs, exhaustive: false };
         serde_json::to_value(case).unwrap()
     }
 
@@ -346,6 +357,15 @@ impl Prop for C14 {
                 }
             }
 
+            if v.dwarf && h == 0 && case.input.source.ends_with(inputs::DWARF_TAG) && case.faults.is_empty() {
+                let names: Vec<Vec<u8>> = wasmsplit::customs(&a).unwrap_or_default().into_iter().map(|(n, _)| n).collect();
+                out.hit("dwarf_on_input_has_wellformed_dwarf");
+                if !names.iter().any(|n| n == b".debug_info") {
+                    out.failure = fail("dwarf_carried_when_enabled", format!("hop {}: DWARF generation is on and the input has well-formed DWARF, but the output has no `.debug_info` section (custom sections: {:?})", h, names.iter().map(|n| String::from_utf8_lossy(n).into_owned()).collect::<Vec<_>>()));
+                    return out;
+                }
+            }
+
             // M4: producers content
             if v.producers {
                 let inp = read_producers(&cur);
@@ -415,7 +435,7 @@ impl Prop for C14 {
             }
         }
         let bytes = inputs::bytes_of(&c.input);
-        if c.faults.is_empty() {
+        if c.faults.is_empty() && !c.cfg.dwarf {
             if let Some(secs) = wasmsplit::split(&bytes) {
                 for s in secs.iter().rev() {
                     let mut b = bytes[..s.range.start].to_vec();
